@@ -733,3 +733,55 @@ Fixpoint search (n : nat) (t : fs) (todo : list hop) (fin : fs) : bool :=
   end.
 Definition final_serialisable (t0 : fs) (succ : list hop) (fin : fs) : bool :=
   search (S (length succ)) t0 succ fin.
+
+(** ** Tree-shaped heaps (executable check used as the hypothesis of the liveness theorems).
+    [good_shared] does not exclude a cyclic heap, a directory linked twice, or a directory that
+    carries the [removed] mark while it is still linked; none of these can be built through the
+    memfs API (every heap reached from a tree-shaped one is tree-shaped), but on such a heap the
+    deep copy runs out of fuel or MkdirAll restarts for ever.  [tree_shared s]: the child lists
+    hold every directory object at most once over the whole heap, no link points to the root or
+    to a removed directory, the root is not removed, and the computed heights decrease along
+    every link (no cycle). *)
+Definition drefs (ch : list (name * ref)) : list nat :=
+  flat_map (fun e => match snd e with RDir c => [c] | RFile _ => [] end) ch.
+Definition kids (s : shared) (d : nat) : list nat :=
+  match nth_error (dirs s) d with Some o => drefs (d_ch o) | None => [] end.
+Definition is_removed (s : shared) (d : nat) : bool :=
+  match nth_error (dirs s) d with Some o => d_removed o | None => false end.
+Definition nat_in (x : nat) (l : list nat) : bool := existsb (Nat.eqb x) l.
+Fixpoint nodupb (l : list nat) : bool :=
+  match l with [] => true | x :: l' => negb (nat_in x l') && nodupb l' end.
+Fixpoint hgt (fuel : nat) (s : shared) (d : nat) : nat :=
+  match fuel with
+  | O => O
+  | S f => S (list_max (map (hgt f s) (kids s d)))
+  end.
+Definition heights (s : shared) : list nat :=
+  map (hgt (length (dirs s)) s) (seq 0 (length (dirs s))).
+Definition tree_shared (s : shared) : bool :=
+  let n := length (dirs s) in
+  let hts := heights s in
+  let rk x := nth x hts O in
+  forallb (fun d =>
+    nodupb (kids s d) &&
+    forallb (fun c =>
+      negb (Nat.eqb c ROOT) && negb (is_removed s c) && Nat.ltb (rk c) (rk d) &&
+      forallb (fun d2 => Nat.eqb d d2 || negb (nat_in c (kids s d2))) (seq 0 n)) (kids s d)) (seq 0 n)
+  && negb (is_removed s ROOT).
+
+(** ** Nested use of a stream session.  The programs of this model close a Reader/Writer session
+    before the same thread starts its next operation.  A goroutine that calls into memfs WHILE it
+    holds a session is described here as two model threads with a dependency: [dep t = Some b]
+    means "thread t does not Close its session before thread b has finished" (b runs the calls
+    the goroutine makes while the session is open).  With [dep = fun _ => None] this is [step]. *)
+Definition closing (p : pcs) : bool :=
+  match p with PWriting _ [] | PReaderClose _ => true | _ => false end.
+Definition thread_done (st : state) (t : nat) : bool :=
+  match nth_error (ths st) t with Some l => done l | None => true end.
+Definition step_nested (dep : nat -> option nat) (ar : flavour) (t : nat) (st : state) : option state :=
+  match nth_error (ths st) t, dep t with
+  | Some l, Some b => if closing (pc l) && negb (thread_done st b) then None else step ar t st
+  | _, _ => step ar t st
+  end.
+Definition run_nested (dep : nat -> option nat) (ar : flavour) (sched : list nat) (st : state) : state :=
+  fold_left (fun st t => match step_nested dep ar t st with Some st' => st' | None => st end) sched st.
